@@ -3,7 +3,7 @@ package main
 func init() {
 	props = append(props, prop{
 		ID: "C06", Title: "HTTP/1.x parsing is independent of segmentation", Level: "exploration",
-		Rule:        "differential monitor against the same nbhttp.Parser fed the stream in one piece. Streams: grammar-generated request streams (server parser) and response streams (client parser) of 1-5 pipelined messages (Content-Length and chunked bodies, chunk extensions, declared trailers, the lenient spacing variants of parser_test.go, empty values, repeated fields), 45% of them damaged by 1-2 mutations (bit flip, byte replace/insert/delete, dropped CR, dropped LF, truncated tail). Two passes per stream: 'events' = a recording Processor logs every callback (consecutive OnBody concatenated); 'delivered' = the real ServerProcessor/ClientProcessor run and the handler logs the delivered *http.Request/*http.Response (start line, Host, Close, header multimap, body, trailer). Segmentations per stream and pass: every single cut position (exhaustive), byte-at-a-time, 6 (quick) / 12 (thorough) random cut sets of 2-8 cuts, and every pair of cuts when the stream is <= 200 bytes (quick: only for the quarter of streams generated short; thorough: all). Feeding stops at the first error, as the engine closes the connection; ReadLimit is 1 GiB so ErrTooLong cannot occur. Verdict: log and error text equal to the one-piece parse. evaluations = streams; a stream is non-trivial if its one-piece parse completed >= 1 message or was rejected after >= 1 event, and >= 4 segmented parses were compared; distinct by (kind, stream index)",
+		Rule:        "differential monitor against the same nbhttp.Parser fed the stream in one piece. Streams: grammar-generated request streams (server parser) and response streams (client parser) of 1-5 pipelined messages (Content-Length and chunked bodies, chunk extensions, declared trailers, the lenient spacing variants of parser_test.go, empty values, repeated fields), 45% of them damaged by 1-2 mutations (bit flip, byte replace/insert/delete, dropped CR, dropped LF, truncated tail). Two passes per stream: 'events' = a recording Processor logs every callback (consecutive OnBody concatenated); 'delivered' = the real ServerProcessor/ClientProcessor run and the handler logs the delivered *http.Request/*http.Response (start line, Host, Close, header multimap, body, trailer). Segmentations per stream and pass: every single cut position (exhaustive), byte-at-a-time, 6 (quick) / 12 (thorough) random cut sets of 2-8 cuts, and every pair of cuts when the stream is <= 200 bytes (quick: only for the quarter of streams generated short; thorough: all). Feeding stops at the first error, as the engine closes the connection; ReadLimit is 1 GiB so ErrTooLong cannot occur. Verdict: log and error text equal to the one-piece parse. evaluations = streams; a stream is non-trivial if its one-piece parse completed >= 1 message or was rejected after >= 1 event, and >= 4 segmented parses were compared; distinct by (kind, stream index). The generator also produces structurally ill-formed messages (Opts.Damage: a chunked message that announces trailers and ends with the plain last chunk); for those, as for mutated streams, only the agreement of every segmentation with the one-piece parse is asked",
 		Assumptions: commonAssumptions,
 		Phases: []phase{
 			{Name: "main", Pkg: "./workers/c06", QuickShards: 8, ThorShards: 16},
